@@ -285,25 +285,37 @@ def search(mod, tier, seed_value, ncases, time_budget, ctx, known_names):
             st["harness"] = traceback.format_exc() + "\nplan: " + plan_json(plan)[:3000]
             return
 
-    test = given(mod.strategy(tier))(one)
-    test = hypothesis.seed(seed_value)(test)
-    test = settings(
-        max_examples=ncases, deadline=None, database=None, derandomize=False,
-        report_multiple_bugs=False, print_blob=False,
-        phases=[Phase.generate, Phase.shrink],
-        suppress_health_check=[HealthCheck.too_slow, HealthCheck.data_too_large,
-                               HealthCheck.large_base_example],
-    )(test)
     violation = None
-    try:
-        test()
-    except Violation:
-        plan, v = st["fail"]
-        violation = {"plan": enc(plan), "what": v.what, "detail": {k: short(x, 1500) for k, x in v.detail.items()},
-                     "hashseed": int(os.environ.get("PYTHONHASHSEED", "0") or 0)}
-    except Exception:
-        if st["harness"] is None:
-            st["harness"] = traceback.format_exc()
+    for attempt in range(3):
+        test = given(mod.strategy(tier))(one)
+        test = hypothesis.seed(seed_value + attempt * 7919000)(test)
+        test = settings(
+            max_examples=ncases, deadline=None, database=None, derandomize=False,
+            report_multiple_bugs=False, print_blob=False,
+            phases=[Phase.generate, Phase.shrink],
+            suppress_health_check=[HealthCheck.too_slow, HealthCheck.data_too_large,
+                                   HealthCheck.large_base_example],
+        )(test)
+        try:
+            test()
+        except Violation:
+            plan, v = st["fail"]
+            violation = {"plan": enc(plan), "what": v.what, "detail": {k: short(x, 1500) for k, x in v.detail.items()},
+                         "hashseed": int(os.environ.get("PYTHONHASHSEED", "0") or 0)}
+        except hypothesis.errors.Flaky:
+            # A plan failed once and passed when Hypothesis ran it again: something an EARLIER case left behind in this
+            # process made it fail. That is not reproducible from the plan, so it is not reported; the search goes on
+            # under another seed to find a plan that carries the history in itself (up to three attempts).
+            st["flaky"] = st.get("flaky", 0) + 1
+            st["fail"] = None
+            if attempt < 2:
+                continue
+            st["harness"] = ("a case failed only because of what an earlier case left behind in the process (three searches "
+                             "ended that way); no self-contained failing plan was found\n" + traceback.format_exc())
+        except Exception:
+            if st["harness"] is None:
+                st["harness"] = traceback.format_exc()
+        break
     return {
         "evaluations": st["evals"],
         "distinct": len(all_hashes),
